@@ -128,8 +128,8 @@ class DirectMethod:
         self.add_variables(stage, self.opti)
         self.add_parameters(stage, self.opti)
 
-        for c, m, _ in stage._constraints["point"]:
-            self.opti.subject_to(self.eval_top(stage, c), meta = m)
+        for c, m, args in stage._constraints["point"]:
+            self.opti.subject_to(self.eval_top(stage, c), scale=args["scale"], meta = m)
         self.opti.add_objective(self.eval_top(stage, stage._objective))
         self.set_initial(stage, self.opti, stage._initial)
         self.set_parameter(stage, self.opti)
